@@ -163,7 +163,7 @@ def gen_case(i, r):
         for b, l in enumerate(LEVELS):
             if mask >> b & 1:
                 env[l][var] = l
-    return {'i': i, 'spelling': [None, None, 'upper', 'title', 'mixed'][i % 5], 'hooks': hooks, 'groups': groups, 'cert_hooks': cert_hooks, 'acc_hooks': acc_hooks,
+    return {'i': i, 'file_movers': i % 6 == 3, 'split_env': i % 6 == 4, 'spelling': [None, None, 'upper', 'title', 'mixed'][i % 5], 'hooks': hooks, 'groups': groups, 'cert_hooks': cert_hooks, 'acc_hooks': acc_hooks,
             'ids': [(a, b) for a, b, _ in ids], 'id_kinds': [c for _, _, c in ids], 'exit': exits, 'env': env,
             'acc_env': {'VF_ACC': 'account', 'VF_D': 'account-over-daemon'}}
 
@@ -205,6 +205,22 @@ def run_case(case):
                          global_extra={'env': dict(case['env']['global'])})
         c['hook'] = hooks
         c['group'] = case['groups']
+        if case.get('file_movers'):
+            # hooks that change the existence of the very file being written: create-or-edit is what it was before the pre hooks ran
+            c['hook'] = hooks + [{'name': 'h_touch', 'type': ['file-pre-create'], 'cmd': 'sh', 'args': ['-c', 'umask 077; : > "$0"', '{{ file_path }}']},
+                                 {'name': 'h_mv', 'type': ['file-pre-edit'], 'cmd': 'sh', 'args': ['-c', 'mv "$0" "$0.old"', '{{ file_path }}']}]
+            c['certificate'][0]['hooks'] = list(case['cert_hooks']) + ['h_touch', 'h_mv']
+        if case.get('split_env'):
+            # the certificate lives in the first of two included files which both define the global environment: the last one wins
+            stale = {k: 'stale' for k in case['env']['global']}
+            with open(d + '/a.toml', 'w') as f:
+                f.write(C.toml_dumps({'global': {'env': stale}, 'certificate': c.pop('certificate')}))
+            with open(d + '/b.toml', 'w') as f:
+                f.write(C.toml_dumps({'global': {'env': dict(case['env']['global'])}}))
+            c['global'].pop('env', None)
+            out = {'include': ['a.toml', 'b.toml']}
+            out.update(c)
+            return out
         return c
     n_post = len([t for t in trace if t[2] == 'post-operation'])
     n_att = len(outcomes)
@@ -401,7 +417,7 @@ def run(tier):
                 key = 'environment|%s' % what.split(' hook ')[0]
             chk.violation('C10|%s' % key, what, res, res.get('replay_dir'))
     chk.rule = ('generated hook sets: 1-8 hooks with 1-4 types each, 0-3 (nested) groups, hooks listed twice, allow_failure x scripted exit codes and deaths by signal, '
-                'stdin / stdin_str / stdout / stderr templates, rev_labels, {{ env.X }} templates, challenge names in other letter cases, 15 environment variables covering every subset of (daemon, global, certificate, '
+                'stdin / stdin_str / stdout / stderr templates, rev_labels, {{ env.X }} templates, challenge names in other letter cases, hooks that create or move away the file being written, global environment defined in two included files, 15 environment variables covering every subset of (daemon, global, certificate, '
                 'identifier); 1-3 identifiers over the three challenge types; first issuance + renewal and the retries the exit codes cause; '
                 'distinct = configurations with matched invocations')
     chk.assumptions = ['model of acmed.toml(5): sections hook, group, WRITING A HOOK', 'account hooks judged with account env over the daemon environment only']
